@@ -79,6 +79,28 @@ coordinates get distinct offsets -/
 theorem get_in_buffer (m : Matrix α) (h : m.Coh) {r c : Nat} (hr : r < m.nrows) (hc : c < m.ncols) :
     m.idx r c < m.data.size := m.idx_lt h hr hc
 
+/-- distinct in-bounds coordinates are handed distinct offsets: `get` / `get_mut` never alias two
+logical positions onto one stored element -/
+theorem get_distinct (m : Matrix α) {r c r' c' : Nat} (hr : r < m.nrows) (hc : c < m.ncols)
+    (hr' : r' < m.nrows) (hc' : c' < m.ncols) (hne : ¬ (r = r' ∧ c = c')) :
+    m.idx r c ≠ m.idx r' c' := fun e => hne (m.idx_inj hr hc hr' hc' e)
+
+/-- two checked lookups answer alike exactly when they name the same position or are both out of
+bounds: the answer of `get` determines the in-bounds coordinate -/
+theorem get_eq_iff (m : Matrix α) (h : m.Coh) (hfit : m.data.size ≤ usizeMax) (r c r' c' : Nat)
+    (hb : r < m.nrows ∧ c < m.ncols) :
+    m.getIdx r c = m.getIdx r' c' ↔ (r = r' ∧ c = c') := by
+  rw [get_exact m h hfit, get_exact m h hfit, if_pos hb]
+  constructor
+  · intro e
+    by_cases hb' : r' < m.nrows ∧ c' < m.ncols
+    · rw [if_pos hb'] at e
+      injection e with e; injection e with e
+      exact m.idx_inj hb.1 hb.2 hb'.1 hb'.2 e
+    · rw [if_neg hb'] at e
+      injection e with e; cases e
+  · rintro ⟨rfl, rfl⟩; rw [if_pos hb]
+
 /-- `m[(r, c)]`: the same element when in bounds, a panic (and no memory access) otherwise -/
 theorem index_exact (m : Matrix α) (h : m.Coh) (hfit : m.data.size ≤ usizeMax) (r c : Nat) :
     indexOp (m.getIdx r c) =
